@@ -283,6 +283,25 @@ uint32_t ts_verif_node_lookahead_bytes(TSNode self) {
   return ts_subtree_lookahead_bytes(*(const Subtree *)self.id);
 }
 
+// Number of MISSING leaves inside this node's subtree that are not visible on their
+// own (hidden tokens): they make has_error() true without being reachable as nodes.
+uint32_t ts_verif_node_hidden_missing(TSNode self) {
+  uint32_t count = 0;
+  Array(Subtree) stack = array_new();
+  array_push(&stack, *(const Subtree *)self.id);
+  while (stack.size > 0) {
+    Subtree t = array_pop(&stack);
+    uint32_t n = ts_subtree_child_count(t);
+    if (n == 0) {
+      if (ts_subtree_missing(t) && !ts_subtree_visible(t)) count++;
+      continue;
+    }
+    for (uint32_t i = 0; i < n; i++) array_push(&stack, ts_subtree_children(t)[i]);
+  }
+  array_delete(&stack);
+  return count;
+}
+
 // ---------------------------------------------------------------------------
 // H1: scheduling hook (see atomic.h). NULL unless a harness installs one.
 void (*ts_verif_yield_hook)(int kind, const volatile void *address) = NULL;
